@@ -338,7 +338,7 @@ fn leaves_of(f: &F) -> Vec<F> {
 
 pub fn run(tier: Tier) -> i32 {
     let mut run = Run::new("C08", tier, "model_checking");
-    run.rule = "filter trees built from the public node structs: every leaf over literals of every admissible kind (strings with every escape class, numbers ± fraction / 1e21 / 1e-7 / units, dates, times with fraction, timestamps UTC and zoned (+/-, two-digit hour, half hour, zero offset), refs with and without display name incl. a quote, uris, symbols, booleans), paths of 1-4 segments incl. names that start with a keyword, not, ^symbol, *==, four relationship forms; every and/or/parens shape with <= 2 (thorough 3) leaves over a core. (1) Filter::to_string then Filter::try_from gives an equal tree (Debug rendering) and reprints identically; (2) every spelling of the reference printer with <= 2 deviations (required white space: one space / two / newline / tab; optional white space around operators, parens and ->: default / toggled / newline / two spaces) parses to the same tree. states = trees, transitions = spellings parsed".into();
+    run.rule = "filter trees built from the public node structs: every leaf over literals of every admissible kind (strings with every escape class, numbers ± fraction / 1e21 / 1e-7 / units, dates, times with fraction, timestamps UTC and zoned (+/-, two-digit hour, half hour, zero offset), refs with and without display name incl. a quote, uris, symbols, booleans), paths of 1-4 segments incl. names that start with a keyword, not, ^symbol, *==, four relationship forms; every and/or/parens shape with <= 2 (thorough 3) leaves over a core. (1) Filter::to_string then Filter::try_from gives an equal tree (Debug rendering) and reprints identically; (2) every spelling of the reference printer with <= 2 deviations (required white space: one space / two / newline / tab; optional white space around operators, parens and ->: default / toggled / newline / two spaces) parses to the same tree. (3) long chains: n flat parenthesised groups, n leaves, n and-in-or terms, nesting n deep, for every n 1..72, 100, 120, 126..130, 255..257, 1000. states = trees, transitions = spellings parsed".into();
     run.assume("an 'equal filter' compares Refs by id (libhaystack's and Haystack's Ref equality): display names of Refs are not compared");
     run.assume("filter grammar of DESIGN Appendix A.3; literal syntax = Zinc scalar syntax; tag names exclude the reserved words");
     crate::engine::quiet_panics();
@@ -381,6 +381,50 @@ pub fn run(tier: Tier) -> i32 {
     run.absorb(l);
     run.stats.traces = run.stats.transitions;
     run.exhaustive = run.counter("capped") == 0;
+    // long chains: n flat parenthesised groups, n leaves, n-fold and-in-or, nesting n deep (within
+    // the parser's limit of 128), for every n 1..72, 100, 120, 126..130 (flat only beyond 127), 255..257, 1000
+    let ns: Vec<usize> = (1..=72).chain([100, 120, 126, 127, 128, 129, 130, 255, 256, 257, 1000]).collect();
+    let l = crate::engine::par_for_stack(ns.len(), 256 << 20, |i, local| {
+        let n = ns[i];
+        let a = |k: usize| F::Cmp(p(["a", "b", "c"][k % 3]), OPS[k % OPS.len()], V::num(k as f64));
+        let mut trees: Vec<F> = vec![
+            F::Or((0..n.max(2)).map(|k| F::Parens(Box::new(a(k)))).collect()),
+            F::And((0..n.max(2)).map(|k| F::Parens(Box::new(F::Or(vec![a(k), F::Has(p("x"))])))).collect()),
+            F::And((0..n.max(2)).map(a).collect()),
+            F::Or((0..n.max(2)).map(|k| F::And(vec![a(k), F::Missing(p("y"))])).collect()),
+        ];
+        if n <= 126 {
+            let mut t = a(0);
+            for _ in 0..n {
+                t = F::Parens(Box::new(t));
+            }
+            trees.push(t);
+        }
+        for t in trees {
+            local.eval();
+            local.states += 1;
+            local.transitions += 1;
+            local.count("long-chains");
+            local.nontrivial(&format!("chain{n}:{}", leaf_class(&t)));
+            if let Err((stage, d)) = print_parse(&t) {
+                local.fail(&format!("{stage}:{}", leaf_class(&t)), json!({"filter": f_json(&t)}), d.chars().take(600).collect());
+                continue;
+            }
+            // the reference printer's canonical text parses to the tree as well
+            let text = print_canonical(&t);
+            match guarded(|| Filter::try_from(text.as_str())) {
+                Err(pn) => local.fail(&format!("canonical-text-panic:{}", leaf_class(&t)), json!({"filter": f_json(&t), "canonical": true}), pn),
+                Ok(Err(e)) => local.fail(&format!("canonical-text-rejected:{}", leaf_class(&t)), json!({"filter": f_json(&t), "canonical": true}), format!("{e}; {} groups/leaves", n)),
+                Ok(Ok(parsed)) => {
+                    if tree_key(&parsed) != tree_key(&to_lib_filter(&t)) {
+                        local.fail(&format!("canonical-text-parses-to-other-tree:{}", leaf_class(&t)), json!({"filter": f_json(&t), "canonical": true}), format!("{n} groups/leaves"));
+                    }
+                }
+            }
+        }
+    });
+    run.absorb(l);
+    run.require(run.counter("long-chains") > 300, "long chains missing");
     for t in ["required-space", "optional-space"] {
         run.require(run.counter(&format!("deviated:{t}")) > 0, &format!("choice type {t} never deviated"));
     }
@@ -401,6 +445,20 @@ pub fn replay(case: &J) -> Verdict {
             t.dedup();
             (format!("{s}[{}]:{}", t.join("+"), leaf_class(&f)), d)
         });
+    }
+    if case["canonical"] == true {
+        let text = print_canonical(&f);
+        return match guarded(|| Filter::try_from(text.as_str())) {
+            Err(pn) => Err((format!("canonical-text-panic:{}", leaf_class(&f)), pn)),
+            Ok(Err(e)) => Err((format!("canonical-text-rejected:{}", leaf_class(&f)), e.to_string())),
+            Ok(Ok(parsed)) => {
+                if tree_key(&parsed) != tree_key(&to_lib_filter(&f)) {
+                    Err((format!("canonical-text-parses-to-other-tree:{}", leaf_class(&f)), "other tree".into()))
+                } else {
+                    Ok(())
+                }
+            }
+        };
     }
     print_parse(&f).map_err(|(s, d)| (format!("{s}:{}", leaf_class(&f)), d))
 }
